@@ -222,3 +222,196 @@ pub fn read_error(toks: Vec<Tok>) -> Vec<Tok> {
         vec![vec![q1 as u128, later, reply_ok, (b1 && b2) as u128, alive as u128, g.max(0) as u128, port_free]]
     })
 }
+
+/// The UDP multiplexer through the real endpoint (`Core::listen` on a loopback port), direct forwarder: `CONNECT _udp2` over
+/// HTTP/1.1-TLS, HTTP/2-TLS or HTTP/3-QUIC; `flows` client flows (distinct source ports) to two echo peers on loopback, `rounds`
+/// datagrams on each, interleaved.
+/// in : [proto (1|2|3), flows, rounds, payload length]
+/// out: [996] | [status, datagrams the peers received, replies the client got with the right payload, replies labelled with their flow's
+///       destination as source and its source as destination, distinct outbound source ports seen by the peers]
+pub fn front(toks: Vec<Tok>) -> Vec<Tok> {
+    use tokio::io::{AsyncReadExt, AsyncWriteExt};
+    use trusttunnel::settings::{Http1Settings, Http2Settings, ListenProtocolSettings, QuicSettings, Settings};
+    let f = toks[0].clone();
+    let rt = tokio::runtime::Builder::new_multi_thread().worker_threads(3).enable_all().build().unwrap();
+    rt.block_on(async move {
+        let (proto, flows, rounds, plen) = (f[0], f[1] as usize, f[2] as usize, f[3] as usize);
+        let seen: Arc<Mutex<Vec<(usize, u16, Vec<u8>)>>> = Arc::new(Mutex::new(vec![]));
+        let mut peers = vec![];
+        for i in 0..2usize {
+            let Ok(s) = UdpSocket::bind("127.0.0.1:0").await else { return vec![vec![996]] };
+            peers.push(s.local_addr().unwrap());
+            let seen = seen.clone();
+            tokio::spawn(async move {
+                let mut buf = vec![0u8; 70000];
+                loop {
+                    if let Ok((n, from)) = s.recv_from(&mut buf).await {
+                        seen.lock().unwrap().push((i, from.port(), buf[..n].to_vec()));
+                        let back: Vec<u8> = buf[..n].iter().rev().cloned().collect();
+                        let _ = s.send_to(&back, from).await;
+                    }
+                }
+            });
+        }
+        let make = move |addr: SocketAddr| {
+            Settings::builder()
+                .listen_address(addr)
+                .unwrap()
+                .listen_protocols(ListenProtocolSettings {
+                    http1: Some(Http1Settings::builder().build()),
+                    http2: Some(Http2Settings::builder().build()),
+                    quic: if proto == 3 { Some(QuicSettings::builder().build()) } else { None },
+                })
+                .allow_private_network_connections(true)
+                .build()
+                .unwrap()
+        };
+        let Some(ep) = crate::front::start(make, crate::ctxutil::basic_hosts, None).await else {
+            return vec![vec![996]];
+        };
+        // what goes to the endpoint, in order; what is expected back per (flow, round)
+        let src_of = |fl: usize| -> ([u8; 4], u16) { ([10, 8, 0, 2], 4000 + fl as u16) };
+        let payload_of = |fl: usize, r: usize| -> Vec<u8> { (0..plen.max(2)).map(|k| if k == 0 { fl as u8 } else if k == 1 { r as u8 } else { (k * 5 + fl * 11 + r * 3) as u8 }).collect() };
+        let mut stream_out: Vec<Vec<u8>> = vec![];
+        for r in 0..rounds {
+            for fl in 0..flows {
+                let dst = peers[fl % 2];
+                let (sip, sport) = src_of(fl);
+                let mut body = vec![0u8; 12];
+                body.extend_from_slice(&sip);
+                body.extend_from_slice(&sport.to_be_bytes());
+                body.extend_from_slice(&[0u8; 12]);
+                body.extend_from_slice(&[127, 0, 0, 1]);
+                body.extend_from_slice(&dst.port().to_be_bytes());
+                body.push(0);
+                body.extend_from_slice(&payload_of(fl, r));
+                let mut pkt = (body.len() as u32).to_be_bytes().to_vec();
+                pkt.extend_from_slice(&body);
+                stream_out.push(pkt);
+            }
+        }
+        let total = flows * rounds;
+        let mut inbox: Vec<u8> = vec![];
+        let mut status = 0u128;
+        if proto == 1 {
+            let Some(mut s) = crate::front::tls_connect(ep.addr, "localhost", &[b"http/1.1"]).await else { return vec![vec![996]] };
+            let _ = s.write_all(b"CONNECT _udp2 HTTP/1.1\r\nHost: x\r\n\r\n").await;
+            let mut acc = vec![];
+            let mut buf = [0u8; 16384];
+            while !acc.windows(4).any(|w| w == b"\r\n\r\n") {
+                match tokio::time::timeout(Duration::from_secs(3), s.read(&mut buf)).await {
+                    Ok(Ok(n)) if n > 0 => acc.extend_from_slice(&buf[..n]),
+                    _ => break,
+                }
+            }
+            status = String::from_utf8_lossy(&acc).split(' ').nth(1).and_then(|x| x.parse().ok()).unwrap_or(0);
+            if status == 200 {
+                let p = acc.windows(4).position(|w| w == b"\r\n\r\n").unwrap() + 4;
+                inbox.extend_from_slice(&acc[p..]);
+                for pkt in &stream_out {
+                    let _ = s.write_all(pkt).await;
+                    tokio::time::sleep(Duration::from_millis(2)).await;
+                }
+                let deadline = tokio::time::Instant::now() + Duration::from_secs(3);
+                while count_frames(&inbox) < total {
+                    match tokio::time::timeout_at(deadline, s.read(&mut buf)).await {
+                        Ok(Ok(n)) if n > 0 => inbox.extend_from_slice(&buf[..n]),
+                        _ => break,
+                    }
+                }
+            }
+        } else if proto == 2 {
+            let Some(s) = crate::front::tls_connect(ep.addr, "localhost", &[b"h2"]).await else { return vec![vec![996]] };
+            let Ok(Ok((send, conn))) = tokio::time::timeout(Duration::from_secs(3), h2::client::handshake(s)).await else { return vec![vec![996]] };
+            let driver = tokio::spawn(async move {
+                let _ = conn.await;
+            });
+            let req = http::Request::builder().method("CONNECT").uri("_udp2").body(()).unwrap();
+            if let Ok(mut sr) = send.clone().ready().await {
+                if let Ok((resp, mut stream)) = sr.send_request(req, false) {
+                    if let Ok(Ok(resp)) = tokio::time::timeout(Duration::from_secs(3), resp).await {
+                        status = resp.status().as_u16() as u128;
+                        let mut body = resp.into_body();
+                        if status == 200 {
+                            for pkt in &stream_out {
+                                let _ = stream.send_data(bytes::Bytes::from(pkt.clone()), false);
+                                tokio::time::sleep(Duration::from_millis(2)).await;
+                            }
+                            let deadline = tokio::time::Instant::now() + Duration::from_secs(3);
+                            while count_frames(&inbox) < total {
+                                match tokio::time::timeout_at(deadline, body.data()).await {
+                                    Ok(Some(Ok(c))) => {
+                                        let _ = body.flow_control().release_capacity(c.len());
+                                        inbox.extend_from_slice(&c);
+                                    }
+                                    _ => break,
+                                }
+                            }
+                        }
+                    }
+                }
+            }
+            driver.abort();
+        } else {
+            let Some(mut c) = crate::front::H3Client::connect(ep.addr, "localhost").await else { return vec![vec![996]] };
+            let hs = vec![(b":method".to_vec(), b"CONNECT".to_vec()), (b":authority".to_vec(), b"_udp2".to_vec()), (b"user-agent".to_vec(), b"verif".to_vec())];
+            if let Some(id) = c.request(&hs, false) {
+                c.drive(Duration::from_secs(3), |x| x.streams[&id].headers.is_some() || x.is_shut()).await;
+                status = c.streams[&id].status() as u128;
+                if status == 200 {
+                    for pkt in &stream_out {
+                        c.send_body(id, pkt, false).await;
+                        c.drive(Duration::from_millis(2), |_| false).await;
+                    }
+                    let started = tokio::time::Instant::now();
+                    while count_frames(&c.streams[&id].data) < total && started.elapsed() < Duration::from_secs(3) && !c.is_shut() {
+                        c.drive(Duration::from_millis(20), |_| false).await;
+                    }
+                    inbox = c.streams[&id].data.clone();
+                }
+            }
+            c.close();
+        }
+        // replies: length, source (16 + 2), destination (16 + 2), payload
+        let mut good = 0u128;
+        let mut labelled = 0u128;
+        let mut i = 0;
+        while inbox.len() >= i + 4 {
+            let ln = u32::from_be_bytes([inbox[i], inbox[i + 1], inbox[i + 2], inbox[i + 3]]) as usize;
+            if inbox.len() < i + 4 + ln || ln < 36 {
+                break;
+            }
+            let d = &inbox[i + 4..i + 4 + ln];
+            i += 4 + ln;
+            let pl = &d[36..];
+            if pl.len() >= 2 {
+                // the peers answer with the payload reversed: flow and round are its last two bytes
+                let (fl, r) = (pl[pl.len() - 1] as usize, pl[pl.len() - 2] as usize);
+                if fl < flows && r < rounds {
+                    let want: Vec<u8> = payload_of(fl, r).into_iter().rev().collect();
+                    good += (pl == &want[..]) as u128;
+                    let dst = peers[fl % 2];
+                    let (sip, sport) = src_of(fl);
+                    let ok = d[..12] == [0u8; 12] && d[12..16] == [127, 0, 0, 1] && d[16..18] == dst.port().to_be_bytes() && d[18..30] == [0u8; 12] && d[30..34] == sip && d[34..36] == sport.to_be_bytes();
+                    labelled += ok as u128;
+                }
+            }
+        }
+        let s = seen.lock().unwrap();
+        let ports: std::collections::HashSet<u16> = s.iter().map(|x| x.1).collect();
+        vec![vec![status, s.len() as u128, good, labelled, ports.len() as u128]]
+    })
+}
+
+fn count_frames(b: &[u8]) -> usize {
+    let (mut i, mut n) = (0, 0);
+    while b.len() >= i + 4 {
+        let ln = u32::from_be_bytes([b[i], b[i + 1], b[i + 2], b[i + 3]]) as usize;
+        if b.len() < i + 4 + ln {
+            break;
+        }
+        i += 4 + ln;
+        n += 1;
+    }
+    n
+}
